@@ -65,6 +65,39 @@ macro_rules! instantiate {
                 back(mk(m))
             }
 
+            /// scalar_div by a divisor of any magnitude: entries k*d (computed in T, so they are what the
+            /// library receives), exact quotient from those entries in f64. Cases whose exact quotient is
+            /// not finite in T are outside the law and skipped. Returns the number of calls made.
+            pub fn check_div(ks: V3, d0: f64) -> Result<u64, (String, String)> {
+                let d = d0 as $t;
+                if d == 0.0 || !d.is_finite() {
+                    return Ok(0);
+                }
+                let e: [$t; 3] = [(ks[0] * d0) as $t, (ks[1] * d0) as $t, (ks[2] * d0) as $t];
+                if e.iter().any(|x| !(x.abs() <= 2.0)) {
+                    return Ok(0);
+                }
+                let exact: [f64; 3] = [e[0] as f64 / d as f64, e[1] as f64 / d as f64, e[2] as f64 / d as f64];
+                if exact.iter().any(|q| !(q.abs() <= <$t>::MAX as f64 / 4.0)) {
+                    return Ok(0);
+                }
+                let got = RowVector::new(e[0], e[1], e[2]).scalar_div(d).values();
+                for k in 0..3 {
+                    if !close(got[k] as f64, exact[k]) {
+                        return Err(("scalar_div".into(), format!("component {k}: {:e} / {:e} = {:e} expected {:e}", e[k], d, got[k], exact[k])));
+                    }
+                }
+                let m = Matrix::new(RowVector::new(e[0], e[1], e[2]), RowVector::new(e[1], e[2], e[0]), RowVector::new(e[2], e[0], e[1])).scalar_div(d).values();
+                for r in 0..3 {
+                    for c in 0..3 {
+                        if !close(m[r][c] as f64, exact[(r + c) % 3]) {
+                            return Err(("matrix-scalar_div".into(), format!("[{r}][{c}]: {:e} / {:e} = {:e} expected {:e}", e[(r + c) % 3], d, m[r][c], exact[(r + c) % 3])));
+                        }
+                    }
+                }
+                Ok(2)
+            }
+
             /// All single-matrix laws. Returns Err((law, detail)).
             pub fn check_matrix(m0: &M3, vecs: &[V3]) -> Result<(u64, bool), (String, String)> {
                 let m = rounded(m0);
@@ -327,6 +360,36 @@ pub fn run(tier: Tier) -> Report {
         rep.acc.merge(acc);
         base += nv * nv;
     }
+    // divisors of every magnitude: +-2^e and +-1.5*2^e for every exponent of the type (subnormals included),
+    // against every vector (k1*d, k2*d, k3*d), k in E7, whose entries lie in [-2,2]
+    {
+        let divisors: Vec<f64> = (-1075i32..=1023).flat_map(|e| [2f64.powi(e), 1.5 * 2f64.powi(e), -(2f64.powi(e)), -1.5 * 2f64.powi(e)]).filter(|d| *d != 0.0 && d.is_finite()).collect();
+        let nd = divisors.len() as u64;
+        let acc = par_chunks(nd, 16, |acc, lo, hi| {
+            let mut calls = 0u64;
+            for i in lo..hi {
+                let d = divisors[i as usize];
+                for vi in 0..343u64 {
+                    let ks = vec_from_index(&E7, vi);
+                    let case = || json!({"kind":"c19","op":"div","k":ks,"d_bits":format!("{:016x}", d.to_bits())});
+                    for (t, r) in [("f32", f32i::check_div(ks, d)), ("f64", f64i::check_div(ks, d))] {
+                        match r {
+                            Ok(c) => calls += c,
+                            Err(e) => {
+                                record(acc, base + i, t, "divisor magnitudes", Err(e), case);
+                                return;
+                            }
+                        }
+                    }
+                }
+            }
+            acc.states += (hi - lo) * 343;
+            acc.transitions += calls;
+            acc.bucket("scalar_div by +-2^e, +-1.5*2^e over the whole exponent range: element-wise", (hi - lo) * 343);
+        });
+        rep.acc.merge(acc);
+        base += nd;
+    }
     // matrices
     base += match tier {
         Tier::Quick => matrix_sweep(&mut rep, &E5, &E5, "E'={-2,-.5,0,1,1.5}^9 x E'^3", base),
@@ -409,7 +472,7 @@ pub fn run(tier: Tier) -> Report {
         rep.acc.merge(acc);
     }
     rep.bound = format!(
-        "all {} matrices over the {} alphabet x all vectors over it (mul_vec, mul_arr, transpose, identity, scalar_div, invert when |det|>=0.5); all 5^9 matrices over the non-dyadic alphabet x 125 vectors; the near-identity family s*(I+eps*B) for all B in {{-1,0,1}}^9, eps in {{5e-5,1.2e-4,1e-3,0.03}}, s in {{1,2}}; all 343^2 + 125^2 vector pairs; mul_mat on {} pairs over {{-1,0,1}}^9 and on A*A^T, A*B for all 5^9 non-dyadic A (B = the matrix at index 7919*i mod 5^9, a fixed bijection); the library's {} colour matrices pairwise; every case for f32 and f64",
+        "all {} matrices over the {} alphabet x all vectors over it (mul_vec, mul_arr, transpose, identity, scalar_div, invert when |det|>=0.5); all 5^9 matrices over the non-dyadic alphabet x 125 vectors; the near-identity family s*(I+eps*B) for all B in {{-1,0,1}}^9, eps in {{5e-5,1.2e-4,1e-3,0.03}}, s in {{1,2}}; all 343^2 + 125^2 vector pairs; scalar_div by +-2^e and +-1.5*2^e for every exponent of f32 and f64 (subnormal included) of all 343 vectors (k1 d, k2 d, k3 d) with entries in [-2,2]; mul_mat on {} pairs over {{-1,0,1}}^9 and on A*A^T, A*B for all 5^9 non-dyadic A (B = the matrix at index 7919*i mod 5^9, a fixed bijection); the library's {} colour matrices pairwise; every case for f32 and f64",
         tier.pick(5u64.pow(9), 7u64.pow(9)), tier.pick("5-value", "7-value"), 19683u64 * tier.pick(729, 19683), colour_matrices().len()
     );
     rep.rule = "public methods of yuvxyb_math::{Matrix,RowVector,ColVector} vs f64 definitions: 1e-5*max(1,|exact|) per entry; A*inv(A), inv(A)*A within 1e-4 of I; transpose and identity exact".into();
@@ -419,6 +482,7 @@ pub fn run(tier: Tier) -> Report {
     rep.guard_bucket("mul_mat pairs over {-1,0,1}^9 exact");
     rep.guard_bucket("near-identity family s*(I+eps*B): all laws incl. inverse");
     rep.guard_bucket("vector pairs: cross, dot, component_mul, scalar_div, accessors agree");
+    rep.guard_bucket("scalar_div by +-2^e, +-1.5*2^e over the whole exponent range: element-wise");
     rep
 }
 
@@ -444,6 +508,12 @@ pub fn replay(case: &Value) -> (bool, String) {
             let vecs: Vec<V3> = (0..(va.len() as u64).pow(3)).map(|i| vec_from_index(&va, i)).collect();
             res.push(("f32", f32i::check_matrix(&m, &vecs).map(|_| ())));
             res.push(("f64", f64i::check_matrix(&m, &vecs).map(|_| ())));
+        }
+        "div" => {
+            let ks = v_from(&case["k"]);
+            let d = f64::from_bits(u64::from_str_radix(case["d_bits"].as_str().unwrap(), 16).unwrap());
+            res.push(("f32", f32i::check_div(ks, d).map(|_| ())));
+            res.push(("f64", f64i::check_div(ks, d).map(|_| ())));
         }
         "mul_mat" => {
             let (a, b) = (m_from(&case["a"]), m_from(&case["b"]));
